@@ -133,7 +133,12 @@ def gen_cases(rng, n, tier):
             pts = [[x * scale for x in grid_vec(rng)] for _ in range(rng.randint(0, 8))]
             if pts and rng.random() < 0.3:
                 pts[rng.randrange(len(pts))] = list(ref)  # exactly the reference point
-            cases.append({"kind": "plane_generic", "exact": False, "ref": ref, "normal": nrm, "points": pts})
+            if rng.random() < 0.15 and pts:
+                # integer-dtype point arrays are ordinary caller input: same values, dtype int64
+                ipts = [[float(rng.randint(-6, 6)) for _ in range(3)] for _ in pts]
+                cases.append({"kind": "plane_int_points", "exact": False, "ref": ref, "normal": nrm, "points": ipts, "int": True})
+            else:
+                cases.append({"kind": "plane_generic", "exact": False, "ref": ref, "normal": nrm, "points": pts})
         elif u < 0.75:
             # exact arithmetic: axis normals, or 22-bit dyadic normals with a zero component
             ax = rng.randrange(3)
@@ -161,6 +166,10 @@ def gen_cases(rng, n, tier):
         elif u < 0.88:
             pts = [[x * scale for x in grid_vec(rng)] for _ in range(rng.randint(0, 6))]
             e = [x for x in grid_vec(rng, -2, 2, 4)] + [rng.randint(-8, 8) / 2 * scale]
+            if rng.random() < 0.2 and pts:
+                pts = [[float(rng.randint(-6, 6)) for _ in range(3)] for _ in pts]
+                cases.append({"kind": "shared_int_points", "points": pts, "eq": e, "single": False, "int": True})
+                continue
             if rng.random() < 0.3 and pts:
                 cases.append({"kind": "shared_single", "points": pts[:1], "eq": e, "single": True})
             else:
@@ -185,6 +194,8 @@ def run_impl(c):
         if c["kind"].startswith("plane"):
             pl = Plane(np.array(c["ref"]), np.array(c["normal"]))
             pts = _arr(c["points"])
+            if c.get("int"):
+                pts = pts.astype(np.int64)
             before = pts.copy()
             o = {
                 "ref": pl.reference_point.tolist(), "normal": pl.normal.tolist(),
@@ -207,8 +218,10 @@ def run_impl(c):
                 "args_unchanged": bool(np.array_equal(before, pts)),
             }
             return o
-        if c["kind"] in ("shared", "shared_single"):
+        if c["kind"] in ("shared", "shared_single", "shared_int_points"):
             pts = _arr(c["points"])
+            if c.get("int"):
+                pts = pts.astype(np.int64)
             e = np.array(c["eq"])
             if c["single"]:
                 p = pts[0]
@@ -241,7 +254,7 @@ def coq_case(c, o):
             _vecs(o["front_pts"]), _vecs(o["onfront_inv_pts"]), _vecs(o["proj"]), _vecs(o["mirror"]),
             flv(o["eq"]), flv(o["canon"]), flv(o["flip_eq"]), flv(o["single_sd"]))
         return "CPlane %s %s %s %s" % (coq_bool(c["exact"]), pl, coq_list(qv(p) for p in c["points"]), obs)
-    if c["kind"] in ("shared", "shared_single"):
+    if c["kind"] in ("shared", "shared_single", "shared_int_points"):
         e = "(E4 %s)" % " ".join(q(x) for x in c["eq"])
         return "CShared %s %s %s %s %s" % (coq_list(qv(p) for p in c["points"]), e, flv(o["sd"]), _vecs(o["proj"]), _vecs(o["mirror"]))
     es = coq_list("(E4 %s)" % " ".join(q(x) for x in e) for e in c["eqs"])
